@@ -313,7 +313,8 @@ package controller
 
 //@ func NewFanController
 //@   params (persistence, fan, controlLoop, updateRate)
-//@   requires fans.fanWF(fan)
+//@   safety none
+//@   requires[wf -C04] fans.fanWF(fan)
 //@   ensures result is *DefaultFanController && result.(*DefaultFanController) != nil && fresh(result.(*DefaultFanController))
 //@   ensures result.(*DefaultFanController).fan == fan && result.(*DefaultFanController).persistence == persistence && result.(*DefaultFanController).pwmMap == nil
 //@   modifies nothing
